@@ -8,4 +8,5 @@ CONSTANTS
   NoThread = "nobody"
   MaxCalls = 1000000
   Locked = TRUE
+  SplitGet = FALSE
   Unique = TRUE
